@@ -27,11 +27,15 @@ pub struct Case {
     pub constraint_id: u64,
     /// make this variable continuous (rejection case); 0 = none
     pub continuous_var: u64,
+    /// after a successful conversion, convert a second inequality of the same instance as well
+    #[serde(default)]
+    pub second: bool,
 }
 
 const CID: u64 = 3;
 const OTHER_CID: u64 = 7;
 const EXTRA_VAR: u64 = 8;
+const SECOND_CID: u64 = 9;
 
 fn fval(r: R) -> f64 {
     r.0 as f64 / r.1 as f64
@@ -78,7 +82,8 @@ fn build(case: &Case) -> InstRep {
     // or on the list length (layout 1: id nv + 2 exists) collide with an existing variable.
     let mut fvars = vec![];
     for (id, kind, lo, up) in &case.vars {
-        let k = if *id == case.continuous_var { KIND_CONTINUOUS } else { *kind };
+        // continuous, or (for even parameters) semi-continuous: neither can be matched by an integer slack
+        let k = if *id == case.continuous_var { if case.param % 2 == 1 { KIND_CONTINUOUS } else { 5 } } else { *kind };
         let b = if *kind == KIND_BINARY && *id % 2 == 1 { None } else { Some((*lo as f64, *up as f64)) };
         fvars.push(VarRep::new(*id, k, b));
     }
@@ -100,7 +105,10 @@ fn build(case: &Case) -> InstRep {
         constraints: vec![
             ConRep::new(OTHER_CID, EQ_ZERO, Some(FnRep::Lin { terms: vec![(case.vars[0].0, 1.0)], c: -1.0 })).with_meta("other"),
             ConRep::new(CID, case.equality, Some(f)).with_meta("target"),
-        ],
+        ]
+        .into_iter()
+        .chain(if case.second { Some(ConRep::new(SECOND_CID, LE_ZERO, Some(FnRep::Lin { terms: vec![(case.vars[0].0, 1.0)], c: -1.0 }))) } else { None })
+        .collect(),
         ..Default::default()
     }
 }
@@ -345,7 +353,8 @@ pub fn check_case(l: &mut Local, case: &Case) {
             if case.method == "add_slack" && sb.1 != case.param as f64 {
                 l.violation("add_slack/slack-bound", || json!(case), format!("slack bound {sb:?}, expected [0, {}]", case.param));
             }
-            if msg.constraints.len() != 2 || msg.constraints[0] != before.constraints[0] {
+            let n_cons = if case.second { 3 } else { 2 };
+            if msg.constraints.len() != n_cons || msg.constraints[0] != before.constraints[0] || (case.second && msg.constraints[2] != before.constraints[2]) {
                 return l.violation(&format!("{sig0}/other-constraint-changed"), || json!(case), "other constraints changed".into());
             }
             let nc = &msg.constraints[1];
@@ -365,6 +374,7 @@ pub fn check_case(l: &mut Local, case: &Case) {
                 }
             }
             // the feasible set in x
+            let mut second_ok = true;
             let smax = sb.1 as i64;
             for (x, was) in pts.iter().zip(&sat) {
                 let mut now = false;
@@ -381,6 +391,7 @@ pub fn check_case(l: &mut Local, case: &Case) {
                     }
                 }
                 if now != *was {
+                    second_ok = false;
                     l.violation(
                         &format!("{sig0}/feasible-set-changed"),
                         || json!(case),
@@ -391,6 +402,49 @@ pub fn check_case(l: &mut Local, case: &Case) {
                         ),
                     );
                     break;
+                }
+            }
+            // a second conversion in the same instance: x_first - 1 <= 0
+            if case.second && second_ok {
+                l.transitions += 1;
+                let ids_before: Vec<u64> = msg.decision_variables.iter().map(|v| v.id).collect();
+                match sdk(|| msg.convert_inequality_to_equality_with_integer_slack(SECOND_CID, 100).map_err(|e| format!("{e:#}"))) {
+                    Err(p) => l.violation("second-conversion/panic", || json!(case), p),
+                    Ok(Err(e)) => {
+                        // only legitimate when x_first - 1 <= 0 can never hold on the box
+                        let v0 = &case.vars[0];
+                        if v0.2 <= 1 {
+                            l.violation("second-conversion/error", || json!(case), format!("converting the second inequality failed: {e}"));
+                        }
+                    }
+                    Ok(Ok(())) => {
+                        let moved2 = msg.removed_constraints.iter().any(|r| r.constraint.as_ref().is_some_and(|c| c.id == SECOND_CID));
+                        if !moved2 {
+                            let Some(s2) = msg.decision_variables.iter().find(|v| !ids_before.contains(&v.id)).cloned() else {
+                                return l.violation("second-conversion/no-fresh-slack", || json!(case), format!("no decision variable with a fresh id was added (ids before: {ids_before:?}, after: {:?})", msg.decision_variables.iter().map(|v| v.id).collect::<Vec<_>>()));
+                            };
+                            if msg.decision_variables.iter().filter(|v| v.id == s2.id).count() != 1 || msg.decision_variables.len() != ids_before.len() + 1 {
+                                l.violation("second-conversion/slack-id-not-fresh", || json!(case), format!("ids after the second conversion: {:?}", msg.decision_variables.iter().map(|v| v.id).collect::<Vec<_>>()));
+                            }
+                            let c2 = msg.constraints.iter().find(|c| c.id == SECOND_CID);
+                            let g2 = c2.and_then(|c| c.function.as_ref()).and_then(|f| terms_of(f).ok());
+                            let s2max = s2.bound.as_ref().map_or(-1.0, |b| b.upper) as i64;
+                            if let Some(g2) = g2 {
+                                let v0 = &case.vars[0];
+                                for xv in v0.2..=v0.3 {
+                                    let was = (xv as f64 - 1.0) < TOL;
+                                    let now = (0..=s2max).any(|sv| {
+                                        let xs: BTreeMap<u64, f64> = [(v0.0, xv as f64), (s2.id, sv as f64)].into_iter().collect();
+                                        eval_f64(&g2, &xs).is_some_and(|g| g.abs() < TOL)
+                                    });
+                                    if was != now {
+                                        l.violation("second-conversion/feasible-set-changed", || json!(case), format!("x{} = {xv}: x - 1 <= 0 is {was}, the converted second constraint is satisfiable: {now} (function {g2:?}, slack {} in 0..={s2max})", v0.0, s2.id));
+                                        break;
+                                    }
+                                }
+                            }
+                        }
+                    }
                 }
             }
         }
@@ -490,7 +544,13 @@ pub fn run(ctx: &Ctx) -> Finish {
                             param: *p,
                             constraint_id: CID,
                             continuous_var: 0,
+                            second: false,
                         };
+                        if method == "convert" && (bi + i) % 4 == 1 {
+                            let mut c2 = case.clone();
+                            c2.second = true;
+                            check_case(l, &c2);
+                        }
                         if bi == 3 && *p == 3 && ctx.want_sample((*nv * 10_000_000 + i) as u64) {
                             l.samples.push(((*nv * 10_000_000 + i) as u64, json!(case)));
                         }
